@@ -47,12 +47,12 @@ def load_variants(props=None):
     # and every property whose check said anything about it when it was first evaluated.  `inconclusive_ok` lists the pairs where the
     # honest answer is exit 2 (the algorithm was redesigned beyond what the rule knows; see DESIGN.md 9.9).
     td = os.path.join(VERIF, "twins")
-    known_inconclusive = {("C12-t1-3", "C12"),
-                          ("C02-t2-1", "C01"),                      # the T = 0 row handled by a value-set shape, R-T0 cannot locate its store
-                          ("C05-t2-2", "C17"),                      # window bounds precomputed as clipped arrays: no window table to locate
-                          ("C08-t2-3", "C04"), ("C08-t2-3", "C08"),  # extremes found by a hand-written iter/next scan
-                          ("C12-t2-3", "C11"), ("C12-t2-3", "C12"), ("C12-t2-3", "C13"),   # half cycles produced by a generator
-                          ("C20-t2-3", "C20")}                      # nearest node searched point by point in a loop
+    # pairs where the honest answer is exit 2, each with its reason: twins/known_inconclusive.json
+    known_inconclusive = set()
+    kp = os.path.join(td, "known_inconclusive.json")
+    if os.path.exists(kp):
+        with open(kp, encoding="utf-8") as f:
+            known_inconclusive = {(x["twin"], x["property"]) for x in json.load(f)}
     for d in sorted(os.listdir(td)) if os.path.isdir(td) else []:
         pf = os.path.join(td, d, "patch.diff")
         if not os.path.exists(pf):
